@@ -46,12 +46,20 @@ def generate(rng, tier):
         elif r < 0.8:    # second run with a shorter / equal / longer warm-up than m reached
             n1, d1 = rng.randint(2, 6), rng.randint(0, 30)
             runs = [[n1, d1], [rng.randint(2, 6), rng.choice([0, d1, n1 + d1 + rng.randint(1, 20)])]]
-        else:
+        elif r < 0.9:
             runs = [[rng.randint(2, 5), rng.randint(0, 15)] for _ in range(3)]
+        else:
+            # a warm-up-only run followed by sampling runs: the counter m jumps past n_discard + 1 of the later runs
+            nw = rng.randint(3, 40)
+            runs = [[1, nw], [rng.randint(2, 6), 0]] + ([[rng.randint(2, 4), rng.choice([0, nw // 2])]] if rng.random() < 0.5 else [])
         cases.append({"op": "transitions", "f": f, "target": tg, "init": [fb(round(rng.uniform(-1, 1), 2)) for _ in range(d)],
                       "accept": rng.choice([0.55, 0.65, 0.8, 0.9, 0.95, 0.98]), "seed": str(rng.getrandbits(64)),
                       "runs": runs, "events_filter": "stepend"})
     return cases
+
+
+def run_impl(cases):
+    return C.run_isolated("C04", cases, watchdog_s=150, mem_gb=6)
 
 
 def tround(f, x):
@@ -61,7 +69,7 @@ def tround(f, x):
 def steps(case, out):
     """-> list of (nd, prev_state, alpha_bits, n_alpha, next_state) over all runs; state = [m, eps, eb, h, mu, nd]"""
     res = []
-    if "panic" in out:
+    if "panic" in out or "timeout" in out or "crash" in out:
         return res
     for run in out["runs"]:
         prev = run["after_init"]
@@ -99,7 +107,7 @@ def sel(case, out):
 
 
 def coq_term(case, out):
-    if "panic" in out:
+    if "panic" in out or "timeout" in out or "crash" in out:
         return None
     ss, pick = sel(case, out)
     delta, gamma, kappa = consts(case)
@@ -143,6 +151,8 @@ def tols(case, p):
 
 
 def compare(case, out, model):
+    if "timeout" in out or "crash" in out:
+        return None
     if "panic" in out:
         return "implementation panicked: " + out["panic"]
     if model is None:
@@ -178,6 +188,8 @@ def compare(case, out, model):
 def oracle(case, out):
     """Property text: follows dual averaging during the first n_discard transitions, afterwards eps = eps_bar and never
     changes; positive and finite throughout; m persists across run() calls."""
+    if "timeout" in out or "crash" in out:
+        return "NUTS run did not finish: %s" % out
     if "panic" in out:
         return "NUTS run panicked: " + out["panic"]
     f = case["f"]
